@@ -18,8 +18,11 @@ TICK = W.TICK
 
 
 class E2E:
-    def __init__(self, cimpl, simpl, scfg=None, ccfg=None, seed=0):
+    def __init__(self, cimpl, simpl, scfg=None, ccfg=None, seed=0, latency=0):
         self.cimpl, self.simpl = cimpl, simpl
+        self.latency = latency        # ticks a websocket frame spends on the wire
+        self.wire = []                # (due time, n, fn)
+        self._n = 0
         self.hub = hubmod.Hub(seed=seed)
         hubmod.set_hub(self.hub)
         self.loop = vloop.VLoop()
@@ -62,9 +65,20 @@ class E2E:
                 return
         raise RuntimeError('e2e world does not quiesce')
 
+    def later(self, fn):
+        """Put something on the wire: delivered after `latency` ticks (at once if 0)."""
+        if not self.latency:
+            fn()
+            return
+        import heapq
+        self._n += 1
+        heapq.heappush(self.wire, (self.now() + self.latency * TICK, self._n, fn))
+
     def next_deadline(self):
         a, b = self.hub.next_deadline(), self.loop.next_deadline()
         ds = [x for x in (a, b) if x is not None]
+        if self.wire:
+            ds.append(self.wire[0][0])
         return min(ds) if ds else None
 
     def advance_to(self, target):
@@ -74,6 +88,9 @@ class E2E:
             self.hub.now = t
             self.loop.vnow = t
             self.hub.fire_due()
+            import heapq
+            while self.wire and self.wire[0][0] <= t + 1e-9:
+                heapq.heappop(self.wire)[2]()
             self.quiesce()
 
     def close(self):
@@ -161,7 +178,7 @@ class _SyncClient(CW.SyncClientWorld):
             ev.set()
 
         def frame(msg):
-            conn['inq'].put(msg)
+            self.e2e.later(lambda: conn['inq'].put(msg))
 
         def closed():
             if conn['state'] == 'open':
@@ -185,12 +202,14 @@ class _SyncWsE2E(CW._SyncWs):
     def send(self, data):
         if self.conn['state'] != 'open':
             raise CW._WsClosed('closed')
-        self.w.e2e.sw.ws_frame_conn(self.sconn, data)
+        e, sc = self.w.e2e, self.sconn
+        e.later(lambda: e.sw.ws_frame_conn(sc, data))
 
     def send_binary(self, data):
         if self.conn['state'] != 'open':
             raise CW._WsClosed('closed')
-        self.w.e2e.sw.ws_frame_conn(self.sconn, bytes(data))
+        e, sc, b = self.w.e2e, self.sconn, bytes(data)
+        e.later(lambda: e.sw.ws_frame_conn(sc, b))
 
     def close(self):
         if self.conn['state'] == 'open':
@@ -243,7 +262,7 @@ class _AsyncClient(CW.AsyncClientWorld):
                 fut.set_result(False)
 
         def frame(msg):
-            conn['inq'].put_nowait(msg)
+            self.e2e.later(lambda: conn['inq'].put_nowait(msg))
 
         def closed():
             if conn['state'] == 'open':
@@ -270,12 +289,14 @@ class _AioWsE2E(CW._AioWs):
     async def send_str(self, data):
         if self.conn['state'] != 'open':
             raise OSError('closed')
-        self.w.e2e.sw.ws_frame_conn(self.sconn, data)
+        e, sc = self.w.e2e, self.sconn
+        e.later(lambda: e.sw.ws_frame_conn(sc, data))
 
     async def send_bytes(self, data):
         if self.conn['state'] != 'open':
             raise OSError('closed')
-        self.w.e2e.sw.ws_frame_conn(self.sconn, bytes(data))
+        e, sc, b = self.w.e2e, self.sconn, bytes(data)
+        e.later(lambda: e.sw.ws_frame_conn(sc, b))
 
     async def close(self):
         if self.conn['state'] == 'open':
@@ -287,10 +308,10 @@ class _AioWsE2E(CW._AioWs):
 
 # ---- conversation driver ---------------------------------------------------------------------
 
-def run_conversation(cimpl, simpl, scfg, script, seed=0):
+def run_conversation(cimpl, simpl, scfg, script, seed=0, latency=0):
     """script ops: connect(tr) csend(k) ssend(k) cdisc sdisc tick(t).  Returns the E2E trace:
     a list of steps [{'op', 'ev': [application events of both sides, in order]}] + facts."""
-    e = E2E(cimpl, simpl, scfg, seed=seed)
+    e = E2E(cimpl, simpl, scfg, seed=seed, latency=latency)
     steps = []
     facts = {'pair': cimpl + '-client/' + simpl + '-server', 'scfg': dict(e.sw.cfg)}
     nc = ns = 0
@@ -305,12 +326,15 @@ def run_conversation(cimpl, simpl, scfg, script, seed=0):
             elif k == 'csend':
                 acc = []
                 for _ in range(op['k']):
+                    if e.cw.client.state != 'connected':
+                        # send() on a client that is not connected is a no-op; it is exercised
+                        # by C08, here only accepted messages are numbered
+                        continue
                     nc += 1
-                    if e.cw.client.state == 'connected':
-                        acc.append(nc)
+                    acc.append(nc)
                     e.cw.app_send('m%d' % nc)
                     e.quiesce() if op.get('spaced') else None
-                a = {'first': nc - op['k'] + 1, 'k': op['k'], 'acc': acc}
+                a = {'k': op['k'], 'acc': acc}
             elif k == 'ssend':
                 slot = max(e.sw.sids) if e.sw.sids else None
                 acc = []
@@ -350,7 +374,7 @@ def run_conversation(cimpl, simpl, scfg, script, seed=0):
             e.quiesce()
             slot = max(e.sw.sids) if e.sw.sids else None
             so = e.sw.socks.get(slot) if slot else None
-            steps.append({'op': k, 'a': a, 'ev': list(e.log),
+            steps.append({'op': k, 'a': a, 'ev': list(e.log), 'settled': not e.wire,
                           'cup': e.cw.client.state == 'connected',
                           'sup': bool(so is not None and not so.closed and so.connected and
                                       e.sw.sids[slot] in e.sw.server.sockets),
